@@ -62,7 +62,7 @@ _NOTE = ("Trusted: CBMC 6.11 and its SAT/SMT back ends; the cxx2c rewrite rules 
 
 claim("C01", "K01 K02 K04 K06 K37 K39", "Unbounded proof (all 2^64 operands, loop-free contracts) that the arithmetic leaves of value-flow equal the C abstract machine; proof by induction over the expression tree (ghost execution values, recursive calls replaced by the contract) that getExpressionRange bounds every execution and that valueFlowRightShift's known 0 follows from it. Says nothing about where values flow (forward/reverse analysis, program memory and the other value-flow passes are not verified).", _NOTE)
 claim("C09", "K02", "Unbounded proof that Platform::set establishes the data model the property names for each built-in platform and that the range helpers equal the two's-complement ranges.", _NOTE)
-claim("C10", "K01 K02 K04 K06 K07", "Unbounded proof of safety/termination/prefix lemmas of the literal recognisers (loop contracts, any length) and of arithmetic wrap-around; language equality of recognisers is a bounded check (labelled, not counted as proof).", _NOTE)
+claim("C10", "K01 K02 K04 K06 K07 K09 K36 K37", "Unbounded proof of safety/termination/prefix lemmas of the literal recognisers (loop contracts, any length), of arithmetic wrap-around, of the integer-promoted complement and of the platform block of integer-literal typing; bounded checks (labelled, not counted as proof): language equality of the recognisers, literal typing from the spelling, and simplecpp::characterLiteralToLL on every spelling of up to 6 / 7 bytes against the reference in specs/charlit_ref.h. Floating literals, sizeof and platform files are not verified.", _NOTE)
 claim("C13", "all kernels", "Unbounded proof of absence of undefined behaviour (CBMC bounds, pointer, signed-overflow, division, shift checks on every obligation) and of termination where loop contracts carry a decreases clause, for the functions and regions under contract only (about 1% of lib/ plus the #if constant folding of simplecpp); bounded jobs are labelled and not counted.", _NOTE)
 claim("C27", "K17", "Unbounded proof: whole-set postconditions of the enable-group operations, the value gate equals the property's gate and is monotone in the enabled sets, --enable=<name> adds exactly the named groups and removes none, applyEnabled is monotone when enabling.", _NOTE)
 claim("C18", "K19", "Bounded check (token spelling <= 3 bytes; complete in line and column) that the bytes hashed per token determine spelling, line and column and are prefix-free; labelled bounded, nothing counted as proof.", _NOTE, category="model_checking")
